@@ -12,6 +12,7 @@ import (
 func init() {
 	vsRegister("C08.content_found", vhC08ContentFound)
 	vsRegister("C08.content_enrs", vhC08ContentEnrs)
+	vsRegister("C08.enrs_size_budget", vhC08EnrsSizeBudget)
 	vsRegister("C11.lemma_logdist", vhC11LemmaLogDist)
 }
 
@@ -141,6 +142,57 @@ func vhC08ContentEnrs() {
 	}
 	if askerInTable >= 0 {
 		vsCover("asker-removed")
+	}
+}
+
+// The size budget for EVERY vector of record sizes: k = 1..K table nodes whose records have any
+// sizes 1..1200 (symbolic): the reply fits one packet, its length is exactly 2 + the sum of
+// (4 + size) over the listed records, and the list is cut only when the next nearest record would
+// not fit any more.
+//
+//verif:harness C08.enrs_size_budget unwind=40 timeout=60
+//verif:use offerenv tablenodes logdist
+//verif:param K=4/6
+func vhC08EnrsSizeBudget() {
+	p := vhOfferProto(1, protocolVersions{1}, nil)
+	p.storage = &vmMissStorage{}
+	k := 1 + vsChoose("table-nodes", vsParam("K"))
+	key := vsBytesN("key", 32)
+	vhTableNodes = nil
+	sizes := make([]int, k)
+	for i := 0; i < k; i++ {
+		// concretely increasing distance: the nearest-first order is the creation order
+		var id enode.ID
+		copy(id[:], key)
+		id[0] ^= byte(1) << uint(i)
+		n := vhAddTableNodeSymSize(id, 1200)
+		sizes[i] = len(vhEnrBytes[n.Record()])
+	}
+	asker := vhNodeWithID(0, []uint8{1}, enode.ID(vsArr32("asker")))
+	for _, m := range vhTableNodes {
+		vsAssume(m.ID() != asker.ID())
+	}
+	reply, err := p.handleFindContent(asker, &net.UDPAddr{}, &FindContent{ContentKey: key})
+	vsAssert(err == nil, "answered")
+	vsAssert(len(reply) <= vhMaxReply, "reply-fits-one-packet")
+	// the longest prefix of the nearest-first list that fits
+	total, listed := 2, 0
+	for i := 0; i < k; i++ {
+		if total+4+sizes[i] > vhMaxReply {
+			break
+		}
+		total += 4 + sizes[i]
+		listed++
+	}
+	vsAssert(len(reply) == total, "reply-is-the-longest-fitting-prefix")
+	if listed > 0 {
+		vsAssert(int(reply[2])|int(reply[3])<<8 == 4*listed && reply[4] == 0 && reply[5] == 0, "record-count")
+	}
+	if listed < k {
+		vsCover("cut-by-size")
+	}
+	if total == vhMaxReply {
+		vsCover("exactly-full")
 	}
 }
 
